@@ -7,6 +7,12 @@ import (
 	"errors"
 	"fmt"
 	"math/rand"
+	"os"
+	"path/filepath"
+
+	gittuf "github.com/gittuf/gittuf/experimental/gittuf"
+	verifymergeableopts "github.com/gittuf/gittuf/experimental/gittuf/options/verifymergeable"
+	"github.com/gittuf/gittuf/pkg/rsl"
 
 	"github.com/gittuf/gittuf/internal/policy"
 )
@@ -133,6 +139,15 @@ func runC19(c *runCtx) error {
 		def := fmt.Sprintf("w%d", wi)
 		wi++
 		c.defs = append(c.defs, fmt.Sprintf("Definition %s : world := %s.", def, w.coq()))
+		if r.Intn(8) == 0 { // the public API on a real repository holding the same history
+			viaLog, direct, err := c19Wrapper(c, b, wi)
+			if err != nil {
+				return err
+			}
+			c.add(fmt.Sprintf("(C19W %s %s %d%%N %s %s %s)", def, coqStr(refMain), mergeTree, obs, viaLog, direct), sideCase{Class: "wrapper/" + oh[:min(len(oh), 28)], Nontrivial: true,
+				Key: keyOf(fmt.Sprint(w.human()) + "wrapper"), Human: map[string]interface{}{"world": w.human(), "internal": oh, "Repository.VerifyMergeable": viaLog, "with WithBypassRSLForFeatureRef": direct}})
+			continue
+		}
 		term := fmt.Sprintf("(C19 %s %s %d%%N %s %s)", def, coqStr(refMain), mergeTree, obs, coqList(recs))
 		c.add(term, sideCase{Class: "mergeable/" + oh[:min(len(oh), 28)], Nontrivial: true, Key: keyOf(fmt.Sprint(w.human()) + term),
 			Human: map[string]interface{}{"world": w.human(), "rule": fmt.Sprintf("protect-main thr=%d pids=%v globals=%v sharedkeys=%v", thr, pids, globals, shared), "VerifyMergeable": oh, "recorders": hr}})
@@ -261,4 +276,36 @@ func c19FilesCase(c *runCtx, r *rand.Rand, wi int) error {
 		Human: map[string]interface{}{"world": w.human(), "commits": hc, "rules": fmt.Sprintf("protect-main thr=%d pids=%v; files %s pids=%v", thr, pids, fpat, fpids),
 			"VerifyMergeable": oh, "recorders": hr}})
 	return nil
+}
+
+// c19Wrapper mirrors the built history into a real repository and asks experimental/gittuf's
+// Repository.VerifyMergeable, with and without WithBypassRSLForFeatureRef.
+func c19Wrapper(c *runCtx, b *builtWorld, idx int) (string, string, error) {
+	name := fmt.Sprintf("c19-%d", idx)
+	_, dir, err := newRealRepo(c, name, true)
+	if err != nil {
+		return "", "", err
+	}
+	defer os.RemoveAll(filepath.Join(c.outDir, "repos", name))
+	if err := exportObjects(b.m, dir); err != nil {
+		return "", "", err
+	}
+	for _, rv := range b.m.listRefs() {
+		if _, err := gitOut(dir, "update-ref", rv[0], rv[1]); err != nil {
+			return "", "", err
+		}
+	}
+	repo, err := gittuf.LoadRepository(dir)
+	if err != nil {
+		return "", "", err
+	}
+	ask := func(opts ...verifymergeableopts.Option) string {
+		rsl.VerifResetCache()
+		need, err := repo.VerifyMergeable(context.Background(), refMain, refFeat, opts...)
+		if err != nil {
+			return "MNotPossible"
+		}
+		return fmt.Sprintf("(MPossible %s)", coqBool(need))
+	}
+	return ask(), ask(verifymergeableopts.WithBypassRSLForFeatureRef()), nil
 }
